@@ -158,6 +158,8 @@ func TestShape(t *testing.T) {
 		model := gen.ShapeSchema(t, gen.ShapeOpts{Depth: depth, Width: width}, "m")
 		st := gen.DefaultStyle()
 		st.MultiLine = rapid.IntRange(0, 5).Draw(t, "multi") == 0
+		st.BlankInEmpty = rapid.SampledFrom([]int{0, 0, 1, 2}).Draw(t, "blankInEmpty")
+		st.PropAfterArray = rapid.IntRange(0, 2).Draw(t, "propAfterArray") == 0
 		schema := string(gen.PrintSchema(model, st))
 		ndocs := rapid.IntRange(2, 6).Draw(t, "ndocs")
 		earlier := map[bool][]string{}
